@@ -533,3 +533,398 @@ Corollary other_requests_total_fixed fx e r :
 Proof.
   intros F1 F2 F3. destruct r; [exact I| | |]; apply other_requests_total; cbn; rewrite ?F1, ?F2, ?F3; reflexivity.
 Qed.
+
+(** * Composition: the MPD path *)
+Lemma i64_id z : - two63 <= z < two63 -> i64 z = z.
+Proof. intro H. unfold i64, two64, two63 in *. rewrite Z.mod_small by lia. lia. Qed.
+
+Definition small (z : Z) : Prop := - 4611686018427387904 <= z < 4611686018427387904.   (* |z| < 2^62 *)
+
+(** LiveMPD as modelled cannot panic when: the configuration comes from the parser (tsbd not nil
+    and in 0..48 h, periods in 1..3600), the asset is well-formed (loop and segment duration not 0),
+    the stream has started (start <= now, checked by cfgFromRequest), a stop time is not before the
+    start time, and the times are far from the int64 limits. *)
+Lemma live_mpd_safe fx e a c mpdName nowMS tsbd :
+  c_tsbd c = Some tsbd -> 0 <= tsbd <= 172800 ->
+  a_loopMS a <> 0 -> a_segDurMS a <> 0 ->
+  match c_pph c with Some n => 1 <= n <= 3600 | None => True end ->
+  small (c_startS c * 1000) -> small nowMS -> c_startS c * 1000 <= nowMS ->
+  match c_stopS c with Some st => c_startS c <= st /\ small (st * 1000) | None => True end ->
+  is_bad (live_mpd fx e a c mpdName nowMS) = false.
+Proof.
+  intros T TR L S P SS SN LE ST. unfold live_mpd, small in *.
+  destruct (negb (existsb _ _)); [reflexivity|]. rewrite T.
+  destruct (a_loopMS a =? 0) eqn:E0; [lia|].
+  destruct (negb (String.eqb (c_drm c) "") && _); [reflexivity|].
+  destruct ((c_segTimeline c || c_segTimelineNr c) && _); [reflexivity|].
+  destruct (c_pph c) as [pph|]; [|reflexivity].
+  apply split_period_safe; auto.
+  rewrite (i64_id (c_startS c * 1000)) by (unfold two63; lia).
+  rewrite (i64_id (tsbd * 1000000000)) by (unfold two63; lia).
+  assert (Q : tsbd * 1000000000 / 1000000 = tsbd * 1000).
+  { replace (tsbd * 1000000000) with (tsbd * 1000 * 1000000) by lia. apply Z.div_mul. lia. }
+  rewrite Q.
+  set (startMS := c_startS c * 1000) in *.
+  (* the end of the window *)
+  set (endMS := match match c_stopS c with
+                      | Some st => if i64 (st * 1000) <? nowMS then Some (i64 (st * 1000)) else None
+                      | None => None end with Some s => s | None => nowMS end).
+  assert (EB : startMS <= endMS <= nowMS).
+  { subst endMS. destruct (c_stopS c) as [st|]; [|lia]. destruct ST as [ST1 ST2].
+    rewrite (i64_id (st * 1000)) by (unfold two63; lia).
+    destruct (st * 1000 <? nowMS) eqn:EE; subst startMS; lia. }
+  rewrite (i64_id (endMS - tsbd * 1000)) by (unfold two63; lia).
+  destruct (endMS - tsbd * 1000 <? startMS) eqn:E1.
+  - rewrite (i64_id (startMS - startMS)), (i64_id (endMS - startMS)) by (unfold two63; lia). lia.
+  - rewrite (i64_id (endMS - tsbd * 1000 - startMS)), (i64_id (endMS - startMS)) by (unfold two63; lia). lia.
+Qed.
+
+(** * Composition: the segment path (segments written in one piece, no status-code patterns) *)
+Definition wf_rep (loopMS : Z) (r : arep) : Prop :=
+  r_segs r <> [] /\ Z.quot (i64 (loopMS * r_ts r)) 1000 <> 0.
+
+Definition snr_ok (c : cfg) : Prop := -2147483648 <= start_nr c <= maxu32.
+
+Lemma u32_range z : 0 <= u32 z < two32.
+Proof. unfold u32, two32. apply Z.mod_pos_bound. lia. Qed.
+
+Lemma number_above_start c nr : snr_ok c -> 0 <= nr < two32 -> (nr <? u32 (start_nr c)) = false ->
+  0 <= nr - start_nr c < two63.
+Proof.
+  unfold snr_ok, maxu32, two32, two63. intros S R G.
+  destruct (Z_lt_le_dec (start_nr c) 0) as [N|N]; [lia|].
+  assert (u32 (start_nr c) = start_nr c) by (unfold u32, two32; apply Z.mod_small; lia).
+  lia.
+Qed.
+
+Lemma seg_meta_from_time_safe fx r loopMS c t now :
+  wf_rep loopMS r -> c_tsbd c <> None -> hm_bad (seg_meta_from_time fx r loopMS c t now) = false.
+Proof.
+  intros [NE WD] TS. unfold seg_meta_from_time.
+  destruct (Z.quot (i64 (loopMS * r_ts r)) 1000 =? 0) eqn:E; [lia|].
+  destruct (nthZ _ (r_segs r)) as [s|]; [|destruct (fx_time404 fx); reflexivity].
+  destruct (negb (s_st s =? _)); [destruct (fx_time404 fx); reflexivity|].
+  unfold with_tsbd. destruct (c_tsbd c); [|congruence].
+  apply timed_not_bad. reflexivity.
+Qed.
+
+Lemma lookup_plain_safe fx r loopMS c sp segID now :
+  wf_rep loopMS r -> c_tsbd c <> None -> snr_ok c ->
+  hm_bad (lookup_plain fx r loopMS c sp segID now) = false.
+Proof.
+  intros W TS S. unfold lookup_plain.
+  destruct (rep_type c sp =? 0); [|apply seg_meta_from_time_safe; auto].
+  destruct (_ || _) eqn:G; [reflexivity|].
+  apply orb_false_iff in G. destruct G as [_ G].
+  apply seg_meta_from_nr_safe; [exact (proj1 W)|auto|].
+  apply number_above_start; auto using u32_range.
+Qed.
+
+(** the audio branch by number *)
+Lemma find_ref_seg_meta_number_safe fx a r c sp segID now :
+  rep_type c sp = 0 -> wf_rep (a_loopMS a) (a_ref a) -> c_tsbd c <> None -> snr_ok c ->
+  hm_bad (find_ref_seg_meta fx a r c sp segID now) = false.
+Proof.
+  intros T W TS S. unfold find_ref_seg_meta. rewrite T. cbn [Z.eqb].
+  destruct (_ || _) eqn:G; [reflexivity|].
+  apply orb_false_iff in G. destruct G as [_ G].
+  apply seg_meta_from_nr_safe; [exact (proj1 W)|auto|].
+  apply number_above_start; auto using u32_range.
+Qed.
+
+(** the audio branch by time: the scan over the reference segments always finds one *)
+Lemma ref_scan_finds l : forall k t, (exists s, In s l /\ t < s_en s) -> ref_scan l k t <> None.
+Proof.
+  induction l as [|s l IH]; intros k t [x [I L]]; [destruct I|].
+  cbn [ref_scan]. destruct (t <? s_en s) eqn:E; [discriminate|].
+  apply IH. destruct I as [<-|I]; [lia|eauto].
+Qed.
+
+Definition wf_ref (r : arep) : Prop :=
+  r_segs r <> [] /\ 0 < r_ts r < two32 /\
+  (* the loop duration is the end of the last segment: the table starts at 0 and does not wrap *)
+  match r_segs r with
+  | s0 :: _ => s_st s0 = 0 /\ 0 < s_en (last (r_segs r) s0) < two63
+  | [] => False
+  end.
+
+Lemma ref_meta_from_time_safe fx a r c t now :
+  wf_ref (a_ref a) -> 0 < r_ts r < two32 -> c_tsbd c <> None ->
+  hm_bad (ref_meta_from_time fx a r c t now) = false.
+Proof.
+  intros (NE & TS & W) RT TB. unfold ref_meta_from_time.
+  destruct (r_csd r) as [sd|]; [|reflexivity].
+  destruct (sd =? 0); [reflexivity|].
+  destruct (negb (Z.rem t sd =? 0)); [destruct (fx_time404 fx); reflexivity|].
+  assert (U : u64 (r_ts r) = r_ts r) by (unfold u64, two64, two32 in *; apply Z.mod_small; lia).
+  rewrite U. destruct (r_ts r =? 0) eqn:E0; [lia|].
+  destruct (r_segs (a_ref a)) as [|s0 rest] eqn:SG; [congruence|].
+  destruct W as [W0 W1].
+  assert (D : rep_duration (a_ref a) = s_en (last (s0 :: rest) s0)).
+  { unfold rep_duration. rewrite SG. rewrite W0. unfold u64, two64, two63 in *. rewrite Z.sub_0_r. apply Z.mod_small. lia. }
+  rewrite D. set (tot := s_en (last (s0 :: rest) s0)) in *.
+  destruct (tot =? 0) eqn:E1; [lia|].
+  set (refTime := u64 (t * u64 (r_ts (a_ref a))) / r_ts r).
+  assert (RT0 : 0 <= refTime).
+  { subst refTime. apply Z.div_pos; [|lia]. unfold u64, two64. apply Z.mod_pos_bound. lia. }
+  set (tAfter := u64 (refTime - refTime / tot * tot)).
+  assert (TA : 0 <= tAfter < tot).
+  { subst tAfter. assert (M : refTime - refTime / tot * tot = refTime mod tot) by (rewrite Z.mod_eq by lia; lia).
+    rewrite M. pose proof (Z.mod_pos_bound refTime tot ltac:(lia)).
+    unfold u64, two64, two63 in *. rewrite Z.mod_small by lia. lia. }
+  destruct (ref_scan (s0 :: rest) 0 tAfter) as [[relNr s]|] eqn:RS.
+  - destruct (u64 (_ + s_en s) =? 0); [reflexivity|].
+    unfold with_tsbd. destruct (c_tsbd c); [|congruence]. apply timed_not_bad. reflexivity.
+  - exfalso. eapply ref_scan_finds; [|exact RS].
+    exists (last (s0 :: rest) s0). split; [|subst tot; lia].
+    clear. generalize s0 at 1 3. induction rest as [|y rest IH]; intro d; cbn; [auto|].
+    right. destruct rest; [left; reflexivity|]. apply (IH y).
+Qed.
+
+Lemma hbind_safe {A B} (m : hm A) (k : A -> hm B) :
+  hm_bad m = false -> (forall x, hm_bad (k x) = false) -> hm_bad (hbind m k) = false.
+Proof. destruct m; cbn; auto. Qed.
+
+Record wf_asset (a : asset) : Prop := {
+  wa_reps : Forall (wf_rep (a_loopMS a)) (a_reps a);
+  wa_ts : Forall (fun r => 0 < r_ts r < two32) (a_reps a);
+  wa_ref : wf_rep (a_loopMS a) (a_ref a);
+  wa_ref2 : wf_ref (a_ref a);
+  wa_loop : a_loopMS a <> 0;
+  wa_seg : a_segDurMS a <> 0
+}.
+
+Lemma find_rep_in reps sp r id : find_rep reps sp = RMok r id -> In r reps.
+Proof.
+  induction reps as [|x t IH]; cbn [find_rep]; [discriminate|].
+  destruct (find_media (r_pre x) (r_suf x) sp).
+  - destruct (atoi s); intro H; inversion H; subst. left; reflexivity.
+  - intro H. right. auto.
+Qed.
+
+Lemma find_ref_seg_meta_safe fx a r c sp segID now :
+  wf_asset a -> In r (a_reps a) -> c_tsbd c <> None -> snr_ok c ->
+  hm_bad (find_ref_seg_meta fx a r c sp segID now) = false.
+Proof.
+  intros W I TS S. destruct (rep_type c sp =? 0) eqn:T.
+  - apply find_ref_seg_meta_number_safe; auto using wa_ref. lia.
+  - unfold find_ref_seg_meta. rewrite T. apply ref_meta_from_time_safe; auto using wa_ref2.
+    pose proof (wa_ts a W) as F. rewrite Forall_forall in F. auto.
+Qed.
+
+Lemma create_out_seg_safe fx a c sp now :
+  wf_asset a -> c_tsbd c <> None -> snr_ok c -> hm_bad (create_out_seg fx a c sp now) = false.
+Proof.
+  intros W TS S. unfold create_out_seg.
+  destruct (find_rep (a_reps a) sp) as [| |r id] eqn:F; [reflexivity|destruct (fx_segnr404 fx); reflexivity|].
+  pose proof (find_rep_in _ _ _ _ F) as I.
+  destruct (String.eqb (r_ctype r) "audio" && negb (r_preenc r)).
+  - apply hbind_safe; [apply find_ref_seg_meta_safe; auto|].
+    intro m. destruct (_ && _); reflexivity.
+  - apply hbind_safe; [|reflexivity].
+    apply lookup_plain_safe; auto.
+    pose proof (wa_reps a W) as R. rewrite Forall_forall in R. auto.
+Qed.
+
+(** DRM: nothing to dereference when no DRM is asked for, or ECCP, or a DRM configuration exists;
+    tracks without encryption data need the repair fb86caa. *)
+Definition drm_ok (fx : fixes) (e : env) (c : cfg) : Prop :=
+  fx_drm fx = true /\ (c_drm c = "" \/ is_eccp (c_drm c) = true \/ e_drm e = true).
+
+Lemma encrypt_frags_safe fx e c r : drm_ok fx e c -> hm_bad (encrypt_frags fx e c r) = false.
+Proof.
+  intros [F D]. unfold encrypt_frags. rewrite F.
+  destruct (String.eqb (c_drm c) "") eqn:E; [reflexivity|].
+  destruct (negb (r_enc r)); [reflexivity|].
+  destruct (is_eccp (c_drm c)) eqn:EC; [reflexivity|].
+  destruct (e_drm e) eqn:ED; [reflexivity|].
+  destruct D as [D|[D|D]]; try discriminate. rewrite D in E. discriminate.
+Qed.
+
+Lemma match_init_safe fx e c reps sp r : drm_ok fx e c -> match_init e c reps sp = Some r -> is_bad r = false.
+Proof.
+  intros [F D]. induction reps as [|x t IH]; cbn [match_init]; [discriminate|].
+  destruct (String.eqb sp (r_init x)); [|auto].
+  intro H; inversion H; subst; clear H.
+  destruct (negb (r_enc x)); [reflexivity|].
+  destruct (String.eqb (c_drm c) "") eqn:E; [reflexivity|].
+  destruct (is_eccp (c_drm c)) eqn:EC; [reflexivity|].
+  destruct (e_drm e) eqn:ED; [reflexivity|].
+  destruct D as [D|[D|D]]; try discriminate. rewrite D in E. discriminate.
+Qed.
+
+(** generated subtitles *)
+Definition cue_ok (c : cfg) : Prop :=
+  0 < f_to_int (f_ceil (PrimFloat.mul (f_of_int (c_subsDurMS c)) f_milli)) < 9000000000000000.
+
+Lemma get_ref_seg_meta_safe fx a c n now :
+  fx_subs_startnr fx = true -> wf_asset a -> c_tsbd c <> None -> snr_ok c ->
+  hm_bad (get_ref_seg_meta fx a c n now) = false.
+Proof.
+  intros F W TS S. unfold get_ref_seg_meta. rewrite F.
+  destruct (c_segTimeline c); [apply seg_meta_from_time_safe; auto using wa_ref|].
+  cbn [andb]. destruct (_ || _) eqn:G; [reflexivity|].
+  apply orb_false_iff in G. destruct G as [_ G].
+  apply seg_meta_from_nr_safe; [exact (proj1 (wa_ref a W))|auto|].
+  apply number_above_start; auto using u32_range.
+Qed.
+
+Lemma time_subs_media_safe fx a c sp now r :
+  fx_subs_startnr fx = true -> wf_asset a -> c_tsbd c <> None -> snr_ok c -> cue_ok c ->
+  time_subs_media fx a c sp now = Some r -> is_bad r = false.
+Proof.
+  intros F W TS S Q. unfold time_subs_media.
+  match goal with |- match ?p with _ => _ end = _ -> _ => destruct p as [[[lang sg] langs]|] end; [|discriminate].
+  intro H; inversion H; subst; clear H.
+  destruct (negb (existsb _ langs)); [reflexivity|].
+  destruct (cut "."%char sg) as [[nrStr ext]|]; [|reflexivity].
+  destruct (negb (String.eqb ext "m4s")); [reflexivity|].
+  destruct (atoi nrStr) as [n|]; [|reflexivity].
+  match goal with |- is_bad (match ?m with _ => _ end) = false =>
+    assert (B : hm_bad m = false); [|destruct m; [reflexivity|exact B]] end.
+  apply hbind_safe; [apply get_ref_seg_meta_safe; auto|].
+  intro m. apply calc_cue_itvls_safe. exact Q.
+Qed.
+
+(** writeSegment: segments written in one piece (no chunkdur_), no status-code patterns *)
+Theorem write_segment_safe fx e a c sp now :
+  wf_asset a -> c_tsbd c <> None -> snr_ok c -> drm_ok fx e c -> cue_ok c ->
+  fx_subs_startnr fx = true -> c_complete c = true -> c_codes c = [] ->
+  is_bad (write_segment fx e a c sp now) = false.
+Proof.
+  intros W TS S D Q F CC CD. unfold write_segment.
+  destruct (time_subs_init c sp) as [[|]|]; [reflexivity|reflexivity|].
+  destruct (match_init e c (a_reps a) sp) as [r|] eqn:MI; [eapply match_init_safe; eauto|].
+  rewrite CD. cbn [Z.eqb negb]. rewrite CC.
+  destruct (time_subs_media fx a c sp now) as [r|] eqn:TM; [eapply time_subs_media_safe; eauto|].
+  pose proof (create_out_seg_safe fx a c sp now W TS S) as CO.
+  destruct (create_out_seg fx a c sp now) as [[r m]|r]; [|exact CO].
+  destruct (String.eqb (path_ext sp) ".jpg"); [reflexivity|].
+  pose proof (encrypt_frags_safe fx e c r D) as EF.
+  destruct (encrypt_frags fx e c r); [reflexivity|exact EF].
+Qed.
+
+(** * Composition: GET /livesim2 *)
+Lemma verify_and_fill_keeps2 fx c now c1 :
+  verify_and_fill fx c now = Ok c1 -> c_stopS c1 = c_stopS c /\ c_startS c1 = c_startS c.
+Proof.
+  unfold verify_and_fill.
+  repeat match goal with |- context [if ?b then _ else _] => destruct b end;
+    try discriminate; intro H; inversion H; subst; cbn; auto.
+Qed.
+
+Theorem parser_establishes2 fx path now c :
+  process_url_cfg fx path now = Ok c ->
+  (exists t, c_tsbd c = Some t /\ 0 <= t <= 172800) /\
+  (fx_stop_order fx = true -> match c_stopS c with Some st => c_startS c <= st | None => True end).
+Proof.
+  intro P. pose proof (parser_establishes _ _ _ _ P) as (T & _).
+  unfold process_url_cfg in P.
+  destruct (cfg_loop fx _ 0 now _ None) as [[[c0 e] idx]| |] eqn:L; cbn [bind] in P; try discriminate.
+  destruct e; [discriminate|]. destruct (idx =? -1); [discriminate|].
+  destruct (verify_and_fill fx c0 now) as [c1| |] eqn:V; cbn [bind] in P; try discriminate.
+  inversion P; subst; clear P. cbn in *.
+  pose proof (verify_and_fill_keeps _ _ _ _ V) as (K1 & _).
+  pose proof (verify_and_fill_keeps2 _ _ _ _ V) as (K5 & K6).
+  rewrite K5, K6.
+  unfold verify_and_fill in V.
+  destruct (now <? 0); [discriminate|].
+  destruct (fx_stop_order fx && _) eqn:GS; [discriminate|].
+  destruct (fx_snr fx && _); [discriminate|].
+  destruct (c_segTimelineNr c0 && c_segTimeline c0); [discriminate|].
+  destruct (fx_subsdur fx && _); [discriminate|].
+  destruct (_ || _); [discriminate|].
+  destruct (match c_mup c0 with Some m => m <=? 0 | None => false end); [discriminate|].
+  match type of V with context [if ?b then set_ltgt _ _ else _] => destruct b end;
+  cbn [c_tsbd set_ltgt] in V;
+  (match type of V with context [if ?b then Err "timeShiftBufferDepth" else _] => destruct b eqn:GT end; [discriminate|]);
+  (split;
+   [ rewrite K1 in T; destruct (c_tsbd c0) as [t|]; [|congruence]; exists t; rewrite K1; split; [reflexivity|];
+     unfold max_tsbd in GT; lia
+   | intro F; rewrite F in GS; cbn in GS; destruct (c_stopS c0); [lia|exact Logic.I] ]).
+Qed.
+
+Lemma find_asset_best_in l uri : forall best a,
+  find_asset_best l uri best = Some a -> (In a l /\ asset_matches a uri = true) \/ best = Some a.
+Proof.
+  induction l as [|x t IH]; intros best a H; cbn [find_asset_best] in H; [auto|].
+  destruct (asset_matches x uri) eqn:M.
+  - destruct best as [b|].
+    + destruct (_ <? _)%nat.
+      * apply IH in H. destruct H as [[H1 H2]|H]; [left; split; [right|]; auto|].
+        inversion H; subst. left. split; [left; reflexivity|auto].
+      * apply IH in H. destruct H as [[H1 H2]|H]; [left; split; [right|]; auto|]. right; auto.
+    + apply IH in H. destruct H as [[H1 H2]|H]; [left; split; [right|]; auto|].
+      inversion H; subst. left. split; [left; reflexivity|auto].
+  - apply IH in H. destruct H as [[H1 H2]|H]; auto. left. split; [right|]; auto.
+Qed.
+
+Lemma find_asset_in l uri a : find_asset l uri = Some a -> In a l /\ asset_matches a uri = true.
+Proof. intro H. apply find_asset_best_in in H. destruct H as [H|H]; [auto|discriminate]. Qed.
+
+Lemma drop_prefix_slash p : forall u, String.prefix (p +++ "/") u = true ->
+  exists rest, drop_str (String.length p) u = String "/"%char rest.
+Proof.
+  induction p as [|a p IH]; intros u H.
+  - unfold sapp in H. cbn [String.append String.length drop_str] in *. destruct u as [|b u]; [discriminate|].
+    cbn [String.prefix] in H.
+    destruct (Ascii.ascii_dec "/"%char b) as [<-|]; [eauto|discriminate].
+  - destruct u as [|b u]; [discriminate|]. unfold sapp in *. cbn [String.append String.prefix] in H.
+    destruct (Ascii.ascii_dec a b); [|discriminate]. cbn [String.length drop_str]. apply IH. exact H.
+Qed.
+
+(** What the request has to satisfy beyond what the parser establishes: segments in one piece, no
+    status-code or traffic patterns (their composition is not done), a cue duration whose float
+    ceiling is positive, no clock offset, times far from the int64 limits, and a content part that
+    is not itself the path of an asset. *)
+Definition G_live (e : env) (now : Z) (c : cfg) : Prop :=
+  c_complete c = true /\ c_codes c = [] /\ c_traffic c = [] /\ cue_ok c /\ c_timeOffset c = None /\
+  small (c_startS c * 1000) /\ small now /\
+  match c_stopS c with Some st => small (st * 1000) | None => True end /\
+  (forall a, In a (e_assets e) -> join "/" (dropZ (c_contentIdx c) (c_parts c)) <> a_path a).
+
+Theorem live_handler_total fx e path nowArg uq :
+  fx_stoprel fx = true -> fx_annexI fx = true -> fx_periods fx = true -> fx_snr fx = true ->
+  fx_drm fx = true -> fx_subs_startnr fx = true -> fx_stop_order fx = true ->
+  Forall wf_asset (e_assets e) ->
+  (forall now c, atoi nowArg = Some now -> process_url_cfg fx path now = Ok c -> G_live e now c) ->
+  is_bad (live_handler fx e path nowArg uq) = false.
+Proof.
+  intros F1 F2 F3 F4 F5 F6 F7 WF G. unfold live_handler.
+  destruct (atoi nowArg) as [now|] eqn:A; [|reflexivity].
+  destruct (process_url_cfg fx path now) as [c|m|s] eqn:P; [|reflexivity|].
+  2:{ exfalso. eapply parser_total_guarded; eauto. }
+  specialize (G now c eq_refl P).
+  destruct G as (GC & GD & GT & GQ & GO & GS & GN & GP & GA).
+  pose proof (parser_establishes _ _ _ _ P) as (T & _ & PP & _ & SN & N0).
+  pose proof (parser_establishes2 _ _ _ _ P) as ((t & Tt & TR) & SO).
+  specialize (PP F3). specialize (SN F4). specialize (SO F7).
+  assert (S : snr_ok c).
+  { unfold snr_ok, start_nr. destruct (c_startNr c); [exact SN|unfold maxu32; lia]. }
+  rewrite GO.
+  assert (IS : i64 (c_startS c * 1000) = c_startS c * 1000) by (apply i64_id; unfold small, two63 in *; lia).
+  rewrite IS.
+  destruct (now <? c_startS c * 1000) eqn:EARLY; [reflexivity|].
+  destruct (find_asset (e_assets e) _) as [a|] eqn:FA; [|reflexivity].
+  apply find_asset_in in FA. destruct FA as [IA MA].
+  assert (W : wf_asset a) by (rewrite Forall_forall in WF; auto).
+  rewrite F5. cbn [andb].
+  destruct (negb (String.eqb (c_drm c) "") && negb (is_eccp (c_drm c)) && negb (e_drm e)) eqn:DR; [reflexivity|].
+  assert (D : drm_ok fx e c).
+  { split; [exact F5|]. destruct (String.eqb (c_drm c) "") eqn:E1; [left; apply String.eqb_eq; exact E1|].
+    destruct (is_eccp (c_drm c)); [auto|]. destruct (e_drm e); [auto|discriminate]. }
+  destruct (String.eqb (path_ext path) ".mpd").
+  - destruct (negb (check_query (c_query c) uq)); [reflexivity|].
+    eapply live_mpd_safe; eauto using wa_loop, wa_seg.
+    + lia.
+    + destruct (c_stopS c); [split; auto|exact I].
+  - destruct (existsb _ media_exts); [|reflexivity].
+    rewrite GC. rewrite andb_false_r. cbn [andb].
+    unfold traffic_gate. rewrite GT.
+    set (cp := join "/" (dropZ (c_contentIdx c) (c_parts c))) in *.
+    unfold asset_matches in MA. apply orb_prop in MA. destruct MA as [MA|MA].
+    { apply String.eqb_eq in MA. exfalso. exact (GA a IA MA). }
+    destruct (drop_prefix_slash _ _ MA) as [rest ->].
+    destruct (match c_query c with Some _ => _ | None => false end && _); [reflexivity|].
+    apply write_segment_safe; auto.
+Qed.
